@@ -151,7 +151,8 @@ func C07(c *core.Ctx) error {
 	excRe := map[string]string{"M": "^un", "N": "Zzz"} // matches unexp
 	for _, allRoot := range []string{"unset", "false", "true"} {
 		for _, allPkg := range []string{"unset", "false", "true"} {
-			for _, listed := range []bool{false, true} {
+			// the listed interface is one the exclude pattern does not match (Exp) or one that both patterns match (unexp)
+			for _, listed := range []string{"", "Exp", "unexp"} {
 				for _, inc := range regexPlacements {
 					for _, exc := range regexPlacements {
 						root := c07baseRoot(probe)
@@ -178,8 +179,8 @@ func C07(c *core.Ctx) error {
 						if len(pkgc) > 0 {
 							pk["config"] = pkgc
 						}
-						if listed {
-							pk["interfaces"] = core.M{"Exp": core.M{}}
+						if listed != "" {
+							pk["interfaces"] = core.M{listed: core.M{}}
 						}
 						root["packages"] = core.M{P: pk}
 						// effective values: package wins over root
@@ -197,13 +198,13 @@ func C07(c *core.Ctx) error {
 						}
 						var exp []string
 						for _, n := range c07ifaces {
-							if c07select(effAll == "true", listed && n == "Exp", incRe[effInc], excRe[effExc], n) {
+							if c07select(effAll == "true", listed == n, incRe[effInc], excRe[effExc], n) {
 								exp = append(exp, fmt.Sprintf("%s|%s|%s", P, n, mockName(n)))
 							}
 						}
 						sort.Strings(exp)
 						scns = append(scns, c07scn{
-							id:     fmt.Sprintf("table all(root=%s,pkg=%s) listed=%v include=%s exclude=%s", allRoot, allPkg, listed, inc.name, exc.name),
+							id:     fmt.Sprintf("table all(root=%s,pkg=%s) listed=%v include=%s exclude=%s", allRoot, allPkg, map[string]string{"": "false", "Exp": "true", "unexp": "true(unexp)"}[listed], inc.name, exc.name),
 							cfg:    root,
 							files:  map[string]string{"p/p.go": c07src, "q/q.go": c07q},
 							expect: exp,
@@ -372,7 +373,7 @@ func C07(c *core.Ctx) error {
 	c.Ev.Set("distinct_outcomes", len(outcomes))
 	c.Ev.Set("exhaustive", !c.Expired() && done == len(scns))
 	c.Ev.Set("cases", len(scns))
-	c.Ev.Set("bound", map[bool]string{true: "decision table: all(root) x all(pkg) x listed x 7 include placements x 7 exclude placements with <=3 deviating dimensions; configs length {absent,0,1,2,3} x all; null bodies; function-local types; package trees <=3 nodes x 3 node kinds x 12 config variants", false: "decision table: full product (882 rows); package trees <=4 nodes x 3 node kinds x 12 config variants; rest as quick"}[core.Quick(c.Tier)])
+	c.Ev.Set("bound", map[bool]string{true: "decision table: all(root) x all(pkg) x listed {no, an interface the exclusion pattern misses, one that both patterns match} x 7 include placements x 7 exclude placements with <=3 deviating dimensions; configs length {absent,0,1,2,3} x all; null bodies; function-local types; package trees <=3 nodes x 3 node kinds x 12 config variants", false: "decision table: full product (1323 rows); package trees <=4 nodes x 3 node kinds x 12 config variants; rest as quick"}[core.Quick(c.Tier)])
 	c.Ev.Set("rule", "every scenario is a scratch module + config run through the CLI with a probe template that prints (source package, interface, struct) per mock; the multiset must equal the reference selection model A1; non-trivial/distinct = distinct non-empty mock multisets observed")
 	c.Ev.Assume("alias declarations and `type X OtherInterface` forms are outside the alphabet (the statement leaves them open); per-file parameters are set at the root so that C08 consumption issues do not interfere")
 	return nil
